@@ -1,6 +1,6 @@
 (* C10 — only strong public keys are certified (the panic-freedom half is tested, not proved,
    except for keymaster's own address-extension decoder, see C11). *)
-From KM Require Import Base.Bytes Model.KeyStrength Proofs.KeyStrength Model.IPExt Proofs.IPExt.
+From KM Require Import Base.Bytes Model.KeyStrength Proofs.KeyStrength Model.IPExt Proofs.IPExt Model.ClaimAccess Proofs.ClaimAccess.
 
 Theorem c10_strong : forall k, validate k = true ->
   match k with
@@ -43,3 +43,57 @@ Print Assumptions c10_decoder_total.
 Theorem c10_old_rsa_refuted : exists k, validate_old k = true /\ validate k = false.
 Proof. exact validate_old_refuted. Qed.
 Print Assumptions c10_old_rsa_refuted.
+
+(* The parse step explicit: on every path, for every pair of parser outputs, a certificate is only
+   issued for a key that passes the strength predicate - PROVIDED that on a path that parses the
+   input twice (SSH: validator and signer) the two parsers deliver the same key.  That equality is
+   not a fact about the model: it is checked on every run against the real validator and the real
+   signer (correspondence c10_agree), on files of the authorized_keys grammar built from pairs of a
+   strong and a weak key. *)
+Theorem c10_pipeline_parse_explicit : forall path v s k,
+  (parses_twice path = true -> s = v) -> pipeline_of path v s = Signed k -> validate k = true.
+Proof. exact pipeline_of_strong. Qed.
+Print Assumptions c10_pipeline_parse_explicit.
+
+Theorem c10_single_parse_paths : forall path v s k,
+  parses_twice path = false -> pipeline_of path v s = Signed k -> validate k = true.
+Proof. exact pipeline_of_single_parse. Qed.
+Print Assumptions c10_single_parse_paths.
+
+(* and the hypothesis is needed: two parsers that disagree certify a weak key *)
+Theorem c10_disagreeing_parsers_refuted : exists p k, pipeline2 p = Signed k /\ validate k = false.
+Proof. exact pipeline2_disagree_refuted. Qed.
+Print Assumptions c10_disagreeing_parsers_refuted.
+
+Theorem c10_weak_is_client_error_every_path : forall path v s,
+  (forall k, v = Some k -> validate (snd k) = false) -> pipeline_of path v s = ClientError.
+Proof. exact pipeline_of_weak_is_client_error. Qed.
+Print Assumptions c10_weak_is_client_error_every_path.
+
+(* Keymaster's own code on the structure of a (signature-verified) token never panics: for EVERY JSON
+   value as payload - claims absent, null, of any other JSON type, arrays empty or nested - the claim
+   extraction of getAuthInfoFromJWT returns a value or an error.  The model has an explicit Panic
+   outcome for Audience[0]; the length test in front of it is what the theorem rests on
+   (c10_unguarded_index_refuted).  Likewise a header test written with an unchecked type assertion
+   panics on a non-string member, the comma-ok form does not. *)
+Theorem c10_claim_access_total : forall issuer kind now payload,
+  get_auth_info issuer kind now payload <> Panic.
+Proof. exact get_auth_info_total. Qed.
+Print Assumptions c10_claim_access_total.
+
+Theorem c10_claim_access_sound : forall issuer kind now payload u l e i,
+  get_auth_info issuer kind now payload = Ok (u, l, e, i) ->
+  exists c, dec_authclaims payload = Some c /\ c_iss c = issuer /\ c_tt c = kind /\
+            (exists r, c_aud c = issuer :: r) /\ (c_nbf c <= now)%Z /\ u = c_sub c /\ l = c_level c /\ e = c_exp c /\ i = c_iat c.
+Proof. exact get_auth_info_ok. Qed.
+Print Assumptions c10_claim_access_sound.
+
+Theorem c10_unguarded_index_refuted : exists issuer kind now payload,
+  get_auth_info_unguarded issuer kind now payload = Panic.
+Proof. exact get_auth_info_unguarded_panics. Qed.
+Print Assumptions c10_unguarded_index_refuted.
+
+Theorem c10_header_assertion : (forall header, check_typ_checked header <> Panic) /\
+                               (exists header, check_typ_unchecked header = Panic).
+Proof. split; [exact check_typ_checked_total|exact check_typ_unchecked_panics]. Qed.
+Print Assumptions c10_header_assertion.
